@@ -14,6 +14,7 @@ import random
 import numpy as np
 
 from harness import catalog
+from harness import ux as hux
 from harness import x_c11 as X
 from harness.core import Machinery
 from harness.pool import pmap
@@ -64,12 +65,13 @@ CONSTANTS
  MaxLen = %(maxlen)d
  Record = %(record)s
  WithSet = %(withset)s
+ WithRemap = %(withremap)s
 %(invs)s
 CHECK_DEADLOCK FALSE
 """
 
 
-def tc_cfg(trees, mech, maxlen, record, invs, recs="TRUE, FALSE", withset=True):
+def tc_cfg(trees, mech, maxlen, record, invs, recs="TRUE, FALSE", withset=True, withremap=True):
     return TC_CFG % {
         "trees": ", ".join('"%s"' % t for t in trees),
         "recs": recs,
@@ -77,6 +79,7 @@ def tc_cfg(trees, mech, maxlen, record, invs, recs="TRUE, FALSE", withset=True):
         "maxlen": maxlen,
         "record": "TRUE" if record else "FALSE",
         "withset": "TRUE" if withset else "FALSE",
+        "withremap": "TRUE" if withremap else "FALSE",
         "invs": "".join("INVARIANT %s\n" % i for i in invs),
     }
 
@@ -182,6 +185,16 @@ def hist_grid():
     return ux.Grid(_G0.copy(deep=True), source_grid_spec="User Defined Topology")
 
 
+_RD = None
+
+
+def remap_dest():
+    global _RD
+    if _RD is None:
+        _RD = X.build_grid(catalog.entries(name="octahedron", rot=0, cut=0)[0])
+    return _RD
+
+
 def replay_history(item):
     hid, hist = item
     g = hist_grid()
@@ -198,15 +211,30 @@ def replay_history(item):
                 h = fn(coordinates=kind, coordinate_system=system, distance_metric=metric, reconstruct=bool(rcn))
                 idx = next((i for i, x in enumerate(handles) if x is h), None)
                 if idx is None:
-                    handles.append(h)
-                    trees.append(t)
-                    idx = len(handles) - 1
+                    slot = st["ret"] - 1
+                    if 0 <= slot < len(handles) and handles[slot] is None and trees[slot] == t:
+                        handles[slot] = h  # the wrapper an earlier remap call left in the cache
+                        idx = slot
+                    else:
+                        handles.append(h)
+                        trees.append(t)
+                        idx = len(handles) - 1
                 rec["ret"] = idx + 1
                 rec["want"] = [kind, system, metric]
                 rec["cached"] = bool((g._ball_tree if t == "ball" else g._kd_tree) is h)
+            elif act[0] == "remap":
+                # a remap call from this grid with data on act[1]; its internal wrapper is not handed out
+                ux = hux.import_ux()
+                nk = {"nodes": g.n_node, "face centers": g.n_face, "edge centers": g.n_edge}[act[1]]
+                da = ux.UxDataArray(np.arange(float(nk)), dims=[X.DIMS[act[1]]], uxgrid=g, name="v")
+                da.remap.nearest_neighbor(remap_dest(), remap_to="nodes", coord_type=act[2])
+                handles.append(None)
+                trees.append("ball")
+                rec["ret"] = 0
+                rec["want"] = None
             else:
                 hidx = act[1] - 1
-                if hidx >= len(handles):
+                if hidx >= len(handles) or handles[hidx] is None:
                     rec["skipped"] = True  # the model's handle does not exist here (drift)
                     steps.append(rec)
                     continue
@@ -221,6 +249,9 @@ def replay_history(item):
             break
         obs = []
         for i, h in enumerate(handles):
+            if h is None:
+                obs.append(None)
+                continue
             if i == rec["ret"] - 1:
                 expect = rec["want"]
             elif i < len(st["pred"]) and combo_ok(trees[i], st["pred"][i]):
@@ -325,6 +356,8 @@ def histories(ctx, rng):
     for r in res:
         for st in r["steps"]:
             for o in st.get("obs", []):
+                if o is None:
+                    continue
                 behs.add((o["tree"], o["expect"][0], o["expect"][1], o["expect"][2], o["beh"]))
     verdict = behaviour_verdicts(ctx, behs)
     drift = 0
@@ -348,8 +381,12 @@ def histories(ctx, rng):
             model = hist[si]
             if st["ret"] != model["ret"]:
                 drift += 1
+            if st["act"][0] == "remap":
+                continue
             ret = st["ret"] - 1
             for i, o in enumerate(st["obs"]):
+                if o is None:
+                    continue
                 bkey = (o["tree"], o["expect"][0], o["expect"][1], o["expect"][2], o["beh"])
                 bad_beh = verdict[bkey]
                 if i == ret:
